@@ -203,13 +203,19 @@ def units():
                          ('size__v_c', ['C04', 'C20'], 3), ('empty__v_c', ['C04', 'C20'], 4), ('begin__v_c', ['C04', 'C11', 'C20'], 5), ('end__v_c', ['C04', 'C11', 'C20'], 6),
                          ('insert__rE', ['C04', 'C05', 'C11', 'C02', 'C09'], 0), ('insert__rrE', ['C04', 'C05', 'C11', 'C02', 'C09'], 0),
                          ('erase__rE', ['C04', 'C11', 'C02'], 0), ('erase__pE_penable_if_is_same_pE_pE__value__type', ['C04', 'C11', 'C02'], 0),
-                         ('clear__v', ['C04', 'C02'], 0), ('swap__r' + SS, ['C04', 'C05', 'C02'], 0)]:
-        add('ss.%s.NR' % (m.split('__')[0] + ('_' + m.split('__')[1][:3] if m.startswith(('insert', 'erase')) else '')), SS + '__' + m, props, 3, 'StaticVectorBase_E_u8', 'u8', 'ElemNR',
+                         ('clear__v', ['C04', 'C02'], 0), ('swap__r' + SS, ['C04', 'C05', 'C02'], 0),
+                         ('insert__pE_rE', ['C04', 'C05', 'C11', 'C02', 'C09'], 0), ('insert__pE_rrE', ['C04', 'C05', 'C11', 'C02', 'C09'], 0),
+                         ('erase__pE_pE_penable_if_is_same_pE_pE__value__type', ['C04', 'C11', 'C02'], 0),
+                         ('extract__rE', ['C04', 'C11', 'C02'], 0), ('extract__pE', ['C04', 'C11', 'C02'], 0),
+                         ('insert__rr%s__node_type' % SS, ['C04', 'C05', 'C11', 'C02', 'C09'], 0), ('insert__pE_rr%s__node_type' % SS, ['C04', 'C05', 'C11', 'C02', 'C09'], 0)]:
+        short = m.split('__')[0] + ('_' + m.split('__')[1].replace(SS, 'SS')[:9] if m.startswith(('insert', 'erase', 'extract')) else '')
+        add('ss.%s.NR' % short, SS + '__' + m, props, 3, 'StaticVectorBase_E_u8', 'u8', 'ElemNR',
             throws_reachable=m.startswith('insert'))
         us[-1]['cfg'] = 'sets17'
         us[-1]['extra_reach'] = [FF + '__op_call__rE_c']
         us[-1]['defs'].update({'WITH_SETS': '1', 'SS_T': 'struct ' + SS, 'SS_N': '4', 'RESULT_KIND': str(rk), 'FINDFUNCTOR_T': 'struct ' + FF,
-                               'FINDFUNCTOR_CALL(fp, e)': FF + '__op_call__rE_c(fp, e)'})
+                               'FINDFUNCTOR_CALL(fp, e)': FF + '__op_call__rE_c(fp, e)',
+                               'SETNODE_T': 'struct FlatSet_E_GhostCmp_A_Vector_E_A_u32_Dyn_0__node_type'})
     for sz in ('u8',):
         add('SafeNextCapacity.%s' % sz, 'SafeNextCapacity__%s_u64_b' % sz, ['C08', 'C18'], 1, svb('ElemNR', sz), sz, 'ElemNR')
     add('ExceptionGrowingPolicy.Check', 'Exc__Check__u64_u64', ['C08'], 1, svb('ElemNR', 'u8'), 'u8', 'ElemNR')
